@@ -193,6 +193,41 @@ def run(ctx):
     ctx.ob("R11.10", "integer spellings", not bad10, site=A.where(u.function("scanf_fmtstr")), detail={"tokens": n10, "mismatches": bad10[:6]},
            key="R11.10:integer spellings",
            what="the readers give integer spellings another value than they denote: %s" % bad10[:3])
+    # ---- R11.20: the type of `value (exact value)` is the type of its first spelling
+    ctx.rule("R11.20", "EXACT-PART-KEEPS-TYPE: in the checker the type of a number with a parenthesised exact value - `2.5d (0x1.4p+1)` - is decided by the first spelling (the scanner takes the suffix from there): "
+             "in the branch that skips the parenthesised part, entered under a test of `*type` for 'f' / 'd', the type is not written again - neither stored nor handed to a callee as an out-parameter")
+    chk20 = u.function("rtosc_skip_next_printed_arg")
+    tps20 = [p_ for p_ in u.params(chk20) if (A.qtype(p_) or "").replace(" ", "") == "char*" and p_.get("name") not in ("src",)]
+    tpar20 = [p_ for p_ in tps20 if any(y.get("kind") == "UnaryOperator" and y.get("opcode") == "*" and A.ref_id(A.kids(y)[0]) == p_["id"] for y in A.walk(u.body(chk20)))]
+    n20 = 0
+    for tp20 in tpar20:
+        for x in A.walk(u.body(chk20)):
+            if x.get("kind") != "IfStmt":
+                continue
+            cnd = A.kids(x)[0]
+            lits = {A.int_literal(z) for y in A.walk(cnd) if y.get("kind") == "BinaryOperator" and y.get("opcode") == "==" for z in A.kids(y)}
+            reads = any(y.get("kind") == "UnaryOperator" and y.get("opcode") == "*" and A.ref_id(A.kids(y)[0]) == tp20["id"] for y in A.walk(cnd))
+            if not (reads and {ord("f"), ord("d")} <= lits):
+                continue
+            then = A.kids(x)[1]
+            if not any(A.callee_name(c_) in ("skip_numeric", "rtosc_skip_next_printed_arg") or "skip" in (A.callee_name(c_) or "") for c_ in A.calls_in(then)):
+                continue
+            n20 += 1
+            writes = []
+            for y in A.walk(then):
+                if y.get("kind") in ("BinaryOperator", "CompoundAssignOperator") and y.get("opcode", "").endswith("=") and y.get("opcode") not in ("==", "!=", "<=", ">="):
+                    l_ = A.strip_casts(A.kids(y)[0])
+                    if l_.get("kind") == "UnaryOperator" and l_.get("opcode") == "*" and A.ref_id(A.kids(l_)[0]) == tp20["id"]:
+                        writes.append(y)
+                if y.get("kind") == "CallExpr":
+                    for a_ in A.kids(y)[1:]:
+                        if A.ref_id(a_) == tp20["id"]:
+                            writes.append(y)
+            ctx.ob("R11.20", "checker: exact part of a float / double@%s" % A.loc(x)[1], not writes, site=A.where(writes[0]) if writes else A.where(x),
+                   detail={"writes_of_the_type": [A.src(w_)[:50] for w_ in writes]}, key="R11.20:exact-part",
+                   what="while it skips the parenthesised exact value the checker writes the argument's type again (`%s`): `2.5d (0x1.4p+1)` is then reported as a float, so an array or a range of doubles in both spellings is rejected although the scanner reads it" % (A.src(writes[0])[:50] if writes else ""))
+    ctx.require(n20 >= 1, "R11.20: the checker's branch for the parenthesised exact value (under a test of the type for 'f' / 'd') was not found")
+
     # ---- R11.19: "is the step zero" is an exact question
     ctx.rule("R11.19", "EXACT-ZERO-STEP: in delta_from_arg_vals the comparisons whose result decides `the step is zero` (the variable tested by `if(!cmp)`) are exact - no tolerance options - : the tolerance of 0.001 is for the check that n steps reach the right end; "
              "with it, a float range whose step is 0.001 or smaller reads as a range without step")
